@@ -39,6 +39,7 @@ type inputWorld struct {
 	sentAt   []time.Duration // when each segment's last byte was handed to the wire
 	qres     []string
 	lateCPR  int
+	queriersLeft int
 	pollStop bool
 	known    map[string]bool
 }
@@ -153,9 +154,19 @@ func xtermMods(t *simrt.Tape) (vaxis.ModifierMask, int) {
 
 var pasteText = []string{"a", "B", " ", "é", "中", "😀", "\t", "\r", "\n", "x̂", "1", ";", "[", "~"}
 
-func genWellReport(t *simrt.Tape, cols, rows int) ([]byte, []expEv, string) {
+func genWellReport(t *simrt.Tape, cols, rows int, allowF3 bool) ([]byte, []expEv, string) {
 	key := func(r rune, m vaxis.ModifierMask, ty vaxis.EventType, d string) []expEv {
 		return []expEv{{Kind: "key", Rune: r, Mods: m, Type: ty, Desc: d}}
+	}
+	if allowF3 && t.Draw(2) == 0 {
+		// F3 with modifiers shares its encoding (CSI 1;m R) with the cursor
+		// position report: only sent once no such query can be outstanding
+		m, bits := xtermMods(t)
+		if bits == 0 {
+			m, bits = vaxis.ModShift, 1
+		}
+		d := fmt.Sprintf("F3 mods=%d", bits)
+		return []byte(fmt.Sprintf("\x1b[1;%dR", bits+1)), key(vaxis.KeyF03, m, vaxis.EventPress, d), d
 	}
 	switch t.Draw(12) {
 	case 0, 1: // printable text
@@ -385,9 +396,13 @@ func (w *inputWorld) Build(t *simrt.Tape, spec RunSpec) {
 		if t.Draw(3) == 0 {
 			sg.GapUs = drawGrid(t, 200_000)
 		}
+		last := i == n-1
+		if last && avoid[0] {
+			sg.Well = true
+		}
 		if sg.Well {
 			for k := 1 + t.Draw(4); k > 0; k-- {
-				b, exp, d := genWellReport(t, w.cols, w.rows)
+				b, exp, d := genWellReport(t, w.cols, w.rows, last)
 				sg.Bytes = append(sg.Bytes, b...)
 				sg.Exp = append(sg.Exp, exp...)
 				sg.Desc = append(sg.Desc, d)
@@ -428,10 +443,17 @@ func (w *inputWorld) app() {
 	w.env.settle()
 	// from now on replies follow the per-query plan
 	w.s.Go("typist", w.typist)
+	w.queriersLeft = len(w.queries)
 	for i := range w.queries {
 		q := w.queries[i]
 		idx := i
-		w.s.Go(fmt.Sprintf("querier-%d", i), func() { w.querier(idx, q) })
+		w.s.Go(fmt.Sprintf("querier-%d", i), func() {
+			defer func() {
+				w.queriersLeft--
+				simrt.Notify(w)
+			}()
+			w.querier(idx, q)
+		})
 	}
 	w.qres = make([]string, len(w.queries))
 	last := w.segs[len(w.segs)-1].Sentinel
@@ -465,7 +487,15 @@ func (w *inputWorld) app() {
 
 func (w *inputWorld) typist() {
 	simrt.Sleep(time.Millisecond)
-	for _, sg := range w.segs {
+	for si, sg := range w.segs {
+		if si == len(w.segs)-1 {
+			// the last segment may contain CSI R function keys: wait until no
+			// cursor-position query can be outstanding and its late reply, if
+			// any, has been delivered
+			simrt.WaitUntil(w, "typist.wait-queriers", func() bool { return w.queriersLeft == 0 })
+			w.env.settle()
+			simrt.Sleep(200 * time.Millisecond)
+		}
 		if sg.GapUs > 0 {
 			simrt.Sleep(time.Duration(sg.GapUs) * time.Microsecond)
 		} else {
@@ -570,8 +600,29 @@ func (w *inputWorld) querier(i int, q queryPlan) {
 		got, err := vx.ClipboardPop(ctx)
 		cancel()
 		w.res.Fault("query-clipboard")
-		if err == nil && got != clip && !strings.HasPrefix(got, "clip-") {
+		if err == nil && got != clip {
 			w.res.Violate("query-answer", "vaxis.ClipboardPop", "ClipboardPop returned %q, the clipboard holds %q", got, clip)
+		}
+		if err != nil {
+			w.res.Fault("query-clipboard-timeout")
+		}
+		// let a late reply to the first request arrive (and be discarded),
+		// change the clipboard, ask again: the answer must be the new content
+		if !q.Drop {
+			simrt.WaitUntil(w.env.idleBox, "querier.wait-reply", func() bool {
+				at, ok := w.env.deliveredAt["OSC52"]
+				return ok && at >= start
+			})
+		}
+		simrt.Sleep(100 * time.Millisecond)
+		clip2 := fmt.Sprintf("second-%d", i)
+		t.Clipboard = clip2
+		w.env.replyDelay = prev
+		ctx2, cancel2 := context.WithTimeout(context.Background(), 5*time.Second)
+		got2, err2 := vx.ClipboardPop(ctx2)
+		cancel2()
+		if err2 != nil || got2 != clip2 {
+			w.res.Violate("query-answer", "vaxis.ClipboardPop", "second ClipboardPop returned %q (err=%v), the clipboard holds %q (the first request's reply arrived %d us after it, drop=%v, its context was %d us)", got2, err2, clip2, q.DelayUs, q.Drop, q.CtxUs)
 		}
 		_ = base64.StdEncoding
 	}
